@@ -78,6 +78,7 @@ func genCaseC01(t *rapid.T) *Case {
 	d, vars := GenDoc(t, s, p, multi)
 	c := &Case{Schema: s, Graph: g, Doc: d, Vars: vars, Layout: GenLayout(t), Echo: p.Args, ListSeed: rapid.IntRange(0, 1<<20).Draw(t, "listSeed")}
 	c.Assign, c.AnyInstalled = GenAssign(t, g, strategy)
+	c.Warm = GenWarm(t, s, p)
 	// operation name
 	var names []string
 	for _, o := range d.Ops {
